@@ -745,27 +745,84 @@ make_fn!(
 );
 
 make_fn!(
-    range_expression<SliceIter<Token>, Expression>,
-    do_each!(
-        pos => pos,
-        start => either!(simple_expression, grouped_expression),
-        _ => punct!(":"),
-        maybe_step => optional!(
-            do_each!(
-                step => either!(simple_expression, grouped_expression),
-                _ => punct!(":"),
-                (Box::new(step))
-            )
-        ),
-        end => must!(wrap_err!(either!(simple_expression, grouped_expression), "Expected simple or grouped expression")),
-        (Expression::Range(RangeDef{
+    range_operand<SliceIter<Token>, Expression>,
+    either!(simple_expression, grouped_expression)
+);
+
+/// Continues a range expression after its start has been parsed: `: [step :] end`.
+///
+/// When no `:` follows, the start is handed back unchanged. Parsing the start
+/// only once (instead of once as a possible range start and again as a plain
+/// expression) keeps parsing linear in the nesting depth.
+fn range_tail(
+    start: Expression,
+    pos: Position,
+    input: SliceIter<Token>,
+) -> ParseResult<Expression> {
+    let after_colon = match punct!(input.clone(), ":") {
+        Result::Complete(rest, _) => rest,
+        _ => return Result::Complete(input, start),
+    };
+    let (rest, first) = match must!(
+        after_colon,
+        wrap_err!(range_operand, "Expected simple or grouped expression")
+    ) {
+        Result::Complete(rest, first) => (rest, first),
+        Result::Incomplete(i) => return Result::Incomplete(i),
+        Result::Fail(e) => return Result::Fail(e),
+        Result::Abort(e) => return Result::Abort(e),
+    };
+    // `start:step:end` when a second colon follows, `start:end` otherwise.
+    let (rest, maybe_step, end) = match punct!(rest.clone(), ":") {
+        Result::Complete(after_step, _) => match must!(
+            after_step,
+            wrap_err!(range_operand, "Expected simple or grouped expression")
+        ) {
+            Result::Complete(rest, end) => (rest, Some(Box::new(first)), end),
+            Result::Incomplete(i) => return Result::Incomplete(i),
+            Result::Fail(e) => return Result::Fail(e),
+            Result::Abort(e) => return Result::Abort(e),
+        },
+        _ => (rest, None, first),
+    };
+    Result::Complete(
+        rest,
+        Expression::Range(RangeDef {
             pos,
             start: Box::new(start),
             step: maybe_step,
             end: Box::new(end),
-        }))
+        }),
     )
-);
+}
+
+/// A grouped expression, or a range that starts with one.
+fn grouped_or_range_expression(input: SliceIter<Token>) -> ParseResult<Expression> {
+    let start_pos = match pos(input.clone()) {
+        Result::Complete(_, p) => p,
+        Result::Incomplete(i) => return Result::Incomplete(i),
+        Result::Fail(e) => return Result::Fail(e),
+        Result::Abort(e) => return Result::Abort(e),
+    };
+    match grouped_expression(input) {
+        Result::Complete(rest, start) => range_tail(start, start_pos, rest),
+        other => other,
+    }
+}
+
+/// A simple expression, or a range that starts with one.
+fn simple_or_range_expression(input: SliceIter<Token>) -> ParseResult<Expression> {
+    let start_pos = match pos(input.clone()) {
+        Result::Complete(_, p) => p,
+        Result::Incomplete(i) => return Result::Incomplete(i),
+        Result::Fail(e) => return Result::Fail(e),
+        Result::Abort(e) => return Result::Abort(e),
+    };
+    match simple_expression(input) {
+        Result::Complete(rest, start) => range_tail(start, start_pos, rest),
+        other => other,
+    }
+}
 
 make_fn!(
     import_expression<SliceIter<Token>, Expression>,
@@ -847,7 +904,7 @@ fn unprefixed_expression(input: SliceIter<Token>) -> ParseResult<Expression> {
     either!(
         input,
         trace_parse!(format_expression),
-        trace_parse!(simple_expression),
+        trace_parse!(simple_or_range_expression),
         // cast parse attempts must happen before call parse attempts.
         trace_parse!(cast_expression),
         trace_parse!(call_expression),
@@ -867,8 +924,7 @@ make_fn!(
         trace_parse!(convert_expression),
         trace_parse!(module_expression),
         trace_parse!(alt_select_expression),
-        trace_parse!(range_expression),
-        trace_parse!(grouped_expression),
+        trace_parse!(grouped_or_range_expression),
         trace_parse!(include_expression),
         trace_parse!(unprefixed_expression)
     )
